@@ -9,7 +9,9 @@ usage: try_seed.py <worktree> <PROP> <seed-id> [test.cpp ...]
 import json, os, shutil, subprocess, sys, time
 
 wt, prop, sid = sys.argv[1], sys.argv[2].upper(), sys.argv[3]
-tests = sys.argv[4:]
+tests = [a for a in sys.argv[4:] if not a.startswith("+")]
+import glob
+EXTRA = [f for a in sys.argv[4:] if a.startswith("+") for f in glob.glob(os.path.join(sys.argv[1], a[1:]))]
 UNITS = ["kernel/runtime.cpp", "kernel/backend.cpp"] + ["kernel/util/%s.cpp" % u for u in
          ("dist", "dist_file_io", "kahan_summation", "memory_pool", "property_map", "statistics", "xml_scanner")] + \
         ["kernel/adjacency/%s.cpp" % u for u in ("coloring", "cuthill_mckee", "graph", "permutation")]
@@ -42,7 +44,7 @@ res["tests"] = {}
 for t in tests:
     exe = os.path.join(bdir, os.path.basename(t).replace(".cpp", ""))
     cmd = "g++ -std=c++17 -O1 -w -I%s -I%s/_cfg %s/%s %s/test_system/test_system.cpp %s -o %s -pthread" % (
-        wt, wt, wt, t, wt, " ".join(os.path.join(wt, u) for u in UNITS), exe)
+        wt, wt, wt, t, wt, " ".join([os.path.join(wt, u) for u in UNITS] + EXTRA), exe)
     c = sh(cmd, timeout=3600)
     if c.returncode != 0:
         res["tests"][t] = "COMPILE-FAIL"
